@@ -65,26 +65,28 @@ def sat_rounding(ctx):
 
 
 @PROP.obligation('C17.from-satoshi-exact', canaries=[
-    mut.replace_expr('values', 'Value.from_satoshi', 'value * (network.denominator / denominator)', 'round(value * (network.denominator / denominator), -int(math.log10(network.denominator)))', 'from_satoshi rounds to 8 decimals of the requested unit'),
-    mut.replace_expr('values', 'Value.from_satoshi', 'value * (network.denominator / denominator)', 'int(value * (network.denominator / denominator))', 'from_satoshi truncates to whole units'),
+    mut.replace_expr('values', 'Value.from_satoshi', 'cls(value or 0, network.denominator, network)', 'cls(round((value or 0) * (network.denominator / denominator), 8), denominator, network)', 'from_satoshi rounds to 8 decimals of the requested unit'),
+    mut.replace_expr('values', 'Value.from_satoshi', 'cls(value or 0, network.denominator, network)', 'cls(int((value or 0) * (network.denominator / denominator)), denominator, network)', 'from_satoshi truncates to whole units'),
 ])
 def from_satoshi_exact(ctx):
-    """Value.from_satoshi(n, unit) expresses n smallest units in the requested unit: the amount handed to the constructor is
-    n * (network.denominator / unit) and is not rounded or truncated in that unit. A round() whose digit count does not depend on the
-    unit (8 decimals = satoshi precision of the COIN) is coarser than one satoshi for every unit above one coin (1e-8 kBTC = 1000 sat)."""
+    """Value.from_satoshi(n, unit) expresses n smallest units in the requested unit: the amount that reaches the constructor derives from
+    n and is not rounded or truncated in that unit. A round() whose digit count does not depend on the unit (8 decimals = satoshi
+    precision of the COIN) is coarser than one satoshi for every unit above one coin (1e-8 kBTC = 1000 sat)."""
     q = 'values:Value.from_satoshi'
     fn = ctx.repo.func(q)
-    conv = [n for n in ast.walk(fn) if isinstance(n, ast.BinOp) and isinstance(n.op, (ast.Mult, ast.Div)) and 'denominator' in norm(n) and 'value' in [x.id for x in ast.walk(n) if isinstance(x, ast.Name)]]
-    if not conv:
-        ctx.undecided('from_satoshi: unit conversion not found')
-    ctx.saw('conversion: %s' % norm(conv[0]))
+    ctor = [c for c in ast.walk(fn) if isinstance(c, ast.Call) and norm(c.func) == 'cls' and c.args]
+    if not ctor:
+        ctx.undecided('from_satoshi: construction of the result not found')
+    for c in ctor:
+        ctx.saw('result built by %s' % norm(c)[:100])
+        ctx.require(any(isinstance(x, ast.Name) and x.id == 'value' for x in ast.walk(c.args[0])), q, 'the amount handed to the constructor (`%s`) does not derive from the satoshi amount' % norm(c.args[0])[:60], c)
     for c in ast.walk(fn):
         if not isinstance(c, ast.Call):
             continue
         name = norm(c.func)
         if name not in ('round', 'int', 'math.floor', 'math.trunc', 'math.ceil', 'floor', 'trunc', 'ceil') or not c.args:
             continue
-        if not any(x in list(ast.walk(c.args[0])) for x in conv):
+        if not any(isinstance(x, ast.Name) and x.id == 'value' for x in ast.walk(c.args[0])):
             continue
         digits = c.args[1] if len(c.args) > 1 else None
         unit_aware = digits is not None and any(isinstance(x, ast.Name) and x.id == 'denominator' for x in ast.walk(digits))
@@ -693,3 +695,104 @@ def derived_fee_sign(ctx):
         ctx.require(not neg, q, 'with input total %d and output total %d the constructor can continue with fee = %s%s' % (tin, tout, show(term(fee))[:40], (' (when ' + ' and '.join(('' if p_ else 'not ') + show(t)[:60] for t, p_ in end.pc) + ')') if end.pc else ''), stmts[0],
                     'Transaction.fee, as_dict() and the exported transaction carry a negative number of smallest units')
     ctx.floor(n, 3, 'total scenarios')
+
+
+def _mut_parse_float(tree):
+    r = mut.replace_expr('values', 'Value.__init__', 'float(Fraction(value) * Fraction(repr(den_input)))', 'float(value) * den_input').mutate(tree)
+    return bool(r)
+
+
+@PROP.obligation('C17.float-rescale', canaries=[
+    mut.replace_expr('values', 'Value.from_satoshi', 'cls(value or 0, network.denominator, network)', 'cls((value or 0) * (network.denominator / denominator), denominator, network)', 'amount rescaled into the unit with a float quotient before it is stored'),
+    mut.Canary('decimal text converted to a binary float before it is scaled', 'values', _mut_parse_float),
+])
+def float_rescale(ctx):
+    """An amount of up to 2.1e15 smallest units needs 51 of the 53 bits of a binary float: ONE scaling by the network denominator and its
+    inverse in value_sat keep the error below half a unit (n * 2^-52 < 0.47), every further float operation on the path can lose the last
+    unit. Three shapes add such operations and are reported wherever they occur in Value: (1) an amount multiplied by a QUOTIENT of two
+    float denominators (from_satoshi with a unit); (2) decimal TEXT passed through float() and then scaled (the string constructor); (3)
+    the coin amount divided by a denominator other than the network's smallest unit (formatting in a unit). Exact types (Fraction,
+    Decimal, integers) in these places silence the rule."""
+    m = ctx.repo.mod('values')
+    exact = {'Decimal', 'Fraction', 'decimal.Decimal', 'fractions.Fraction'}
+    n_ops = 0
+    for qn, fn in sorted(m.functions.items()):
+        if qn not in ('Value.from_satoshi', 'Value.__init__', 'Value.str', 'Value.str_unit', 'Value.str_auto', 'Value.value_sat', 'Value.to_bytes', 'Value.to_hex'):
+            continue       # the conversions between text / decimal form and smallest units; the arithmetic operators are another matter
+        q = 'values:' + qn
+        parents = {}
+        for x in ast.walk(fn):
+            for c in ast.iter_child_nodes(x):
+                parents[c] = x
+
+        def inside_exact(node):
+            p_ = parents.get(node)
+            while p_ is not None:
+                if isinstance(p_, ast.Call) and norm(p_.func) in exact:
+                    return True
+                p_ = parents.get(p_)
+            return False
+        for b in ast.walk(fn):
+            if not (isinstance(b, ast.BinOp) and isinstance(b.op, (ast.Mult, ast.Div))):
+                continue
+            sides = [b.left, b.right]
+            den_side = [x for x in sides if any(isinstance(y, (ast.Name, ast.Attribute)) and (getattr(y, 'id', None) in ('denominator', 'den_input', 'den') or getattr(y, 'attr', None) == 'denominator') for y in ast.walk(x))]
+            amt_side = [x for x in sides if x not in den_side and any((isinstance(y, ast.Name) and y.id == 'value') or (isinstance(y, ast.Attribute) and y.attr == 'value' and norm(y.value) == 'self') for y in ast.walk(x))]
+            if not den_side or not amt_side or inside_exact(b) or any(isinstance(c, ast.Call) and norm(c.func) in exact for c in ast.walk(b)):
+                continue
+            p_ = parents.get(b)
+            in_test = False
+            while p_ is not None and not isinstance(p_, ast.stmt):
+                in_test = in_test or isinstance(p_, ast.Compare)
+                p_ = parents.get(p_)
+            if in_test:
+                continue       # picking a display unit by magnitude, not converting
+            n_ops += 1
+            d, a_ = den_side[0], amt_side[0]
+            why = None
+            if isinstance(d, ast.BinOp) and isinstance(d.op, ast.Div):
+                why = ('the amount is rescaled with a quotient of binary floats', 'Value.from_satoshi(1947051253767627, "m").value_sat == 1947051253767628')
+            elif isinstance(a_, ast.Call) and norm(a_.func) == 'float' and qn == 'Value.__init__' and any(isinstance(t, ast.If) and 'isinstance(value, str)' in norm(t.test) and b in list(ast.walk(t)) and not any(b in list(ast.walk(o)) for o in t.orelse) for t in ast.walk(fn)):
+                why = ('decimal text is converted to a binary float before it is scaled', "Value('178075849687109.7 finBTC').value_sat == 1780758496871096")
+            elif isinstance(b.op, ast.Div) and norm(a_) == 'self.value' and norm(d) not in ('self.network.denominator',):
+                why = ('the coin amount, already a rounded float, is divided by the float denominator of the display unit', "Value.from_satoshi(2097368203488378).str('µ') == '20973682034883.79 µBTC'")
+            ctx.saw('%s: %s -> %s' % (qn, norm(b)[:70], why[0] if why else 'single scaling by a denominator (bounded below half a unit)'))
+            if why:
+                ctx.violate(q, '%s (`%s`): more float roundings than the 53-bit mantissa leaves room for on amounts up to the total supply' % (why[0], norm(b)[:80]), b, why[1] + ': off by one smallest unit')
+    ctx.floor(n_ops, 2, 'float scalings of amounts by denominators in Value')
+
+
+@PROP.obligation('C17.display-mantissa')
+def display_mantissa(ctx):
+    """Value.str hands a Python float to a %f format. For a display unit d the printed number has (total supply / d) * 10^decimals
+    distinguishable values; a float tells at most 2^53 of them apart. For every unit from the smallest one (sat) upwards that is 2.1e15
+    - it fits; for the units BELOW the smallest unit (n, msat, µsat) it is 2.1e16 and more, so large amounts cannot be printed exactly
+    in these units whatever arithmetic precedes the format. Decided from the denominator table and the type of the formatted value
+    (silent once the number is formatted from an exact type)."""
+    q = 'values:Value.str'
+    fn = ctx.repo.func(q)
+    asg = [n for n in ast.walk(fn) if isinstance(n, ast.Assign) and norm(n.targets[0]) == 'balance']
+    if len(asg) != 1:
+        ctx.undecided('Value.str: %d assignments to the formatted number, expected 1' % len(asg))
+    v = asg[0].value
+    outer = norm(v.func) if isinstance(v, ast.Call) else None
+    is_float = outer in ('round', 'float') or (isinstance(v, ast.BinOp) and 'self.value' in norm(v))
+    exact = isinstance(v, ast.Call) and outer in ('Decimal', 'Fraction', 'decimal.Decimal', 'fractions.Fraction', 'int')
+    ctx.saw('formatted number: %s (%s)' % (norm(v)[:80], 'float' if is_float else ('exact type' if exact else 'unknown type')))
+    if exact:
+        return
+    if not is_float:
+        ctx.undecided('Value.str: type of the formatted number `%s` not classified' % norm(v)[:60])
+    tab = _table(ctx)
+    sat = Fraction(1, 10 ** 8)
+    supply = 21 * 10 ** 6
+    n = 0
+    for d, sym in tab:
+        n += 1
+        if d >= sat:
+            continue        # printed with the decimals of one smallest unit at most: 2.1e15 values
+        distinct = Fraction(supply) / d
+        if distinct > 2 ** 53:
+            ctx.violate(q, 'amounts are formatted in the unit %s through a float: up to %.1e whole units have to be told apart, a float distinguishes 2^53 = 9.0e15' % (sym, float(distinct)), asg[0],
+                        "Value.from_satoshi(2003380357255359).str('n') == '20033803572553588 nBTC', which parses back to ...358: off by one smallest unit")
+    ctx.floor(n, 15, 'denominators')
